@@ -89,6 +89,13 @@ def run(ck):
             mat = np.abs(rng.standard_normal(d)) + 0.1
         else:
             A = rng.standard_normal((d, d)) / math.sqrt(d)
+            if kn != 'l2_light' and (i // 3) % 2 == 1:
+                # a full transform of shape (d_in, d_out) with d_out != d_in: a projection or a lifting
+                dout = [max(1, d - 2), d + 3, 1][(i // 6) % 3]
+                if dout == d:
+                    dout = d + 1
+                A = rng.standard_normal((d, dout)) / math.sqrt(d)
+                ck.count('rectangular full transform (d_in != d_out)')
             mat = A @ A.T if kn == 'l2_light' else A          # the light kernel takes M = T^2 (symmetric PSD) directly
         Xt, Zt = torch.tensor(X, dtype=dtype), torch.tensor(Z, dtype=dtype)
         mt = None if mat is None else torch.tensor(mat, dtype=dtype)
